@@ -176,8 +176,8 @@ func init() {
 					continue
 				}
 				for street := 0; street < 4; street++ {
-					if tier != "thorough" && n == 3 && street >= 2 {
-						continue // quick: preflop and flop for n=3
+					if tier != "thorough" && n == 3 && (street == 1 || street == 2) {
+						continue // quick: preflop and river for n=3
 					}
 					for limit := 0; limit <= 1; limit++ {
 						if tier != "thorough" && limit == 1 && n == 3 {
@@ -233,7 +233,7 @@ func init() {
 		if tier == "thorough" {
 			return append(b, "n in 2..4 seats")
 		}
-		return append(b, "n=2: every street, both limits; n=3: preflop and flop, no-limit")
+		return append(b, "n=2: every street, both limits; n=3: preflop and river, no-limit")
 	}
 	actOutside := []string{"more than 4 seats", "chip amounts >= 2^40 in the state (the amount argument itself is unrestricted)", "states violating Inv_act (its inductiveness is part of the check: C05.inv-* assertions; base case: the ready/next harnesses)", "exported engine plumbing (SetCurrentPlayer, BecomeRaiser, Deal, Burn, EmitEvent, LoadState, Resume) is not in the operation alphabet"}
 	actCovers := func(tier string) []string {
